@@ -401,6 +401,9 @@ CondEval(n, P) ==
     [] n \in FalseConds -> "false"
     [] n = "ctrue" /\ P.hascond -> "true"
     [] n = "cfalse" /\ P.hascond -> "false"
+    \* a condition whose answer is not the same in every run of the process: it holds exactly in the runs with
+    \* ContinueOnError (what Params.Condition says now counts, not what it said for an earlier script)
+    [] n = "cvar" /\ P.hascond -> IF P.coe THEN "true" ELSE "false"
     [] OTHER -> "error"                                       \* unknown condition / Condition returns an error
 
 \* conditions are read left to right: nothing after the bracket -> failure;
@@ -461,7 +464,7 @@ vars == <<root, fs, cd, env, out, err, inp, bg, verdict, failed, lineno, failLin
 \* script would be cut off by the depth bound)
 View == <<root, fs, cd, env, out, err, inp, bg, verdict, failed, lineno>>
 
-P == Profiles[root.prof]
+P == [coe |-> root.coe] @@ Profiles[root.prof]
 Cur == [fs |-> fs, cd |-> cd, env |-> env, out |-> out, err |-> err, inp |-> inp, bg |-> bg,
         stop |-> FALSE, skip |-> FALSE, eff |-> <<>>]
 
@@ -497,7 +500,7 @@ Outcome(r) ==
 UsesOnlyBuiltins(h) ==
   \A k \in 1..Len(h) : LET l == LineSeq[h[k]] IN
      /\ l.cmd \notin Helpers /\ l.cmd \notin Customs
-     /\ \A c \in 1..Len(l.conds) : l.conds[c].n \notin {"ctrue", "cfalse", "cerr"}
+     /\ \A c \in 1..Len(l.conds) : l.conds[c].n \notin {"ctrue", "cfalse", "cerr", "cvar"}
 
 EmitCase(h, o, l, alt) ==
   IF EmitMode = "all" \/ (EmitMode = "terminal" /\ (o.verdict # "running" \/ Len(h) >= DepthOf[root.prof]))
